@@ -18,7 +18,7 @@ func init() {
 	add := func(id string, fs ...func(*report.Ctx)) { round5Rules[id] = append(round5Rules[id], fs...) }
 	add("C05", checkFailureFlags)
 	add("C06", checkFallbackFaultOnlyWithoutCached, checkSweepGuards, checkFailureFlags, checkExitClassification, checkInitErrorCachedOrForwarded, checkInitFailuresHandled)
-	add("C07", checkSweepMustPass, checkPanicGuards, checkRuntimeAPIServed, checkInitFailuresHandled, checkBuilderSettersStore)
+	add("C07", checkDefaultInteropServer, checkSweepMustPass, checkPanicGuards, checkRuntimeAPIServed, checkInitFailuresHandled, checkBuilderSettersStore)
 	add("C15", checkExitClassification, checkFallbackFaultOnlyWithoutCached)
 	add("C12", checkRuntimeAPIServed)
 	add("C09", checkBuilderSettersStore, checkSweepGuards, checkSweepMustPass)
@@ -27,6 +27,11 @@ func init() {
 	add("C08", checkSweepMustPass)
 	add("C10", checkSweepGuards, checkSweepMustPass)
 	add("C16", checkSweepGuards)
+	add("C13", checkExtensionsFlagSemantics)
+	add("C03", checkExtensionsFlagSemantics)
+	add("C18", checkCredentialsRoute)
+	add("C19", checkTerminateGroup)
+	add("C09", checkTerminateGroup)
 }
 
 // storeUnder lists, for the constant stores to field of structName in f, the facts of their blocks.
@@ -102,6 +107,32 @@ func checkFailureFlags(c *report.Ctx) {
 		noExt := callIs("rapidContext.HasActiveExtensions", false)
 		notStandalone := func(ft an.Fact) bool {
 			return !ft.Val && an.IsFieldLoad(ft.Cond, rapidCtxT, "standaloneMode")
+		}
+		// the same decision written as one expression: RequestReset = HasActiveExtensions() || standaloneMode
+		for _, st := range an.Stores(f, T, "RequestReset") {
+			if _, isC := an.ConstBool(st.Val); isC {
+				continue
+			}
+			hasExt, hasStd, other := false, false, false
+			for _, leaf := range an.PhiLeaves(st.Val) {
+				switch {
+				case an.IsFieldLoad(leaf, rapidCtxT, "standaloneMode"):
+					hasStd = true
+				case an.IsResultOf(leaf, "L/rapid.rapidContext.HasActiveExtensions", -1):
+					hasExt = true
+				default:
+					if b, isC := an.ConstBool(leaf); isC && b {
+						hasExt = hasExt || len(an.CallsTo(f, "L/rapid.rapidContext.HasActiveExtensions")) == 1
+					} else {
+						other = true
+					}
+				}
+			}
+			if hasExt && hasStd && !other {
+				n += 2
+			} else {
+				bad = append(bad, "RequestReset computed from something else than HasActiveExtensions() || standaloneMode")
+			}
 		}
 		for _, s := range flagStores(f, T, "RequestReset") {
 			n++
@@ -210,7 +241,10 @@ func checkInitErrorCachedOrForwarded(c *report.Ctx) {
 			if !ok || (bo.Op != token.EQL && bo.Op != token.NEQ) {
 				return false
 			}
-			if !an.IsResultOf(bo.X, srvT+".getRapidPhase", -1) && !an.IsResultOf(bo.Y, srvT+".getRapidPhase", -1) {
+			isPhase := func(v ssa.Value) bool {
+				return an.IsResultOf(v, srvT+".getRapidPhase", -1) || an.IsFieldLoad(v, srvT, "rapidPhase")
+			}
+			if !isPhase(bo.X) && !isPhase(bo.Y) {
 				return false
 			}
 			return ((bo.Op == token.EQL) == ft.Val) == want
@@ -270,9 +304,22 @@ func checkInitFailuresHandled(c *report.Ctx) {
 				if errv == nil {
 					continue
 				}
-				for _, r := range *errv.Referrers() {
+				// the value itself, or the merge it flows into when the step sits in one arm of a branch
+				vals := []ssa.Value{errv}
+				for i := 0; i < len(vals) && i < 4; i++ {
+					for _, r := range *vals[i].Referrers() {
+						if ph, ok := r.(*ssa.Phi); ok {
+							vals = append(vals, ph)
+						}
+					}
+				}
+				var tests []ssa.Instruction
+				for _, v := range vals {
+					tests = append(tests, *v.Referrers()...)
+				}
+				for _, r := range tests {
 					bo, ok := r.(*ssa.BinOp)
-					if !ok || (bo.Op != token.NEQ && bo.Op != token.EQL) {
+					if !ok || (bo.Op != token.NEQ && bo.Op != token.EQL) || !an.IsNil(bo.X) && !an.IsNil(bo.Y) {
 						continue
 					}
 					for _, r2 := range *bo.Referrers() {
@@ -675,4 +722,62 @@ func checkFallbackFaultOnlyWithoutCached(c *report.Ctx) {
 	}
 	sort.Strings(bad)
 	c.Check("R-GUARD", "L/rapid/bootstrap-fault/cached-first", "when the bootstrap or the runtime cannot be started, the bootstrap's own cached fault is recorded when there is one and the generic type only otherwise", len(bad) == 0 && n >= 5, pos, n, "recordings examined: %d; %v", n, bad)
+}
+
+// small wiring conditions from the sweep, each run by the properties it bears on
+func checkExtensionsFlagSemantics(c *report.Ctx) { sweepMisc(c, 1) }
+func checkDefaultInteropServer(c *report.Ctx)    { sweepMisc(c, 2) }
+func checkTerminateGroup(c *report.Ctx)          { sweepMisc(c, 3) }
+func checkCredentialsRoute(c *report.Ctx)        { sweepMisc(c, 4) }
+
+func sweepMisc(c *report.Ctx, which int) {
+	// SetExtensionsFlag(true) enables, (false) disables
+	if f := fn(c, rapidcP, "(*SandboxBuilder).SetExtensionsFlag"); which == 1 && f != nil && len(f.Params) == 2 {
+		facts := an.NewFacts(f)
+		isParam := func(want bool) func(an.Fact) bool {
+			return func(ft an.Fact) bool { return ft.Cond == ssa.Value(f.Params[1]) && ft.Val == want }
+		}
+		okE, okD := false, false
+		for _, call := range an.CallsTo(f, "L/extensions.Enable") {
+			okE = facts.Holds(call.Block(), isParam(true))
+		}
+		for _, call := range an.CallsTo(f, "L/extensions.Disable") {
+			okD = facts.Holds(call.Block(), isParam(false))
+		}
+		c.Check("R-GUARD", an.FuncName(f)+"/enables-when-true", "the extensions flag enables the Extensions API when true and disables it when false", okE && okD, fpos(f), 2, "Enable under true: %v; Disable under false: %v", okE, okD)
+	}
+	// Create falls back to the builder's own interop server
+	if f := fn(c, rapidcP, "(*SandboxBuilder).Create"); which == 2 && f != nil {
+		facts := an.NewFacts(f)
+		ok := false
+		for _, st := range an.Stores(f, "L/rapid.Sandbox", "InteropServer") {
+			if an.IsFieldLoad(an.Strip(st.Val, false), "L/rapidcore.SandboxBuilder", "defaultInteropServer") {
+				ok = facts.Holds(st.Block(), func(ft an.Fact) bool {
+					return !ft.Val && an.IsFieldLoad(ft.Cond, "L/rapidcore.SandboxBuilder", "useCustomInteropServer")
+				})
+			}
+		}
+		c.Check("R-WIRE", an.FuncName(f)+"/default-interop-server", "unless a custom one was set, the sandbox gets the builder's own interop server", ok, fpos(f), 1, "default server stored under !useCustomInteropServer: %v", ok)
+	}
+	// Terminate signals the group when the group is known
+	if f := fn(c, supP, "(*LocalSupervisor).Terminate"); which == 3 && f != nil {
+		facts := an.NewFacts(f)
+		okG := false
+		for _, call := range an.CallsTo(f, "syscall.Kill") {
+			if u, isU := an.Strip(call.Common().Args[0], true).(*ssa.UnOp); isU && u.Op == token.SUB {
+				okG = facts.Holds(call.Block(), func(ft an.Fact) bool { return an.CmpNil(ft, true, errResultOf("syscall.Getpgid")) })
+			}
+		}
+		c.Check("R-GUARD", an.FuncName(f)+"/group-when-known", "Terminate signals the negated process-group id exactly when Getpgid succeeded", okG, fpos(f), 1, "Kill(-pgid) under Getpgid err == nil: %v", okG)
+	}
+	// the credentials route
+	if f := fn(c, "L/rapi", "CredentialsAPIRouter"); which == 4 && f != nil {
+		ok := false
+		for _, r := range routesOf(c, f) {
+			if r.method == "Get" && r.pattern == "/credentials" && r.handlerCtor == "L/rapi/handler.NewCredentialsHandler" {
+				ok = true
+			}
+		}
+		c.Check("R-CONST", an.FuncName(f)+"/route", "GET /credentials is served by the credentials handler", ok, fpos(f), 1, "%v", ok)
+	}
 }
